@@ -1,0 +1,11 @@
+//go:build verif
+
+package options
+
+// Contracts for fvc (see /verif/DESIGN.md). Comment-only file.
+
+// TEMPORARILY ASSUMED for callers (see C18): default option values as a substitution map
+//@ extern func MakeDefaultOptions
+//@   params cfg
+//@   fresh result0
+//@   ensures result1 == nil ==> result0 != nil
